@@ -245,15 +245,20 @@ Proof.
     apply orb_true_r.
 Qed.
 
-(** Every chain handed out without AllowInactive satisfies the provider reading. *)
-Lemma get_chains_spec d q rk f now l d' :
-  get_chains d q false rk f now = (Some l, d') ->
+(** Every chain handed out without AllowInactive - or with it when the DB has
+    no chain for the query - satisfies the provider reading. *)
+Lemma get_chains_spec_gen d q ai rk f now l d' :
+  ai = false \/ db_chains d q = [] ->
+  get_chains d q ai rk f now = (Some l, d') ->
   forall ch, In ch l ->
     spec_provided_ok (d_trcs d) (q_isd q) now ch = true
     /\ In ch (known_chains d f).
 Proof.
-  unfold get_chains. destruct ((q_isd q =? 0) || (q_as q =? 0)); try discriminate.
-  cbn [andb]. destruct (active_trcs (d_trcs d) (q_isd q) now) as [trcs|] eqn:A; try discriminate.
+  intros Hai. unfold get_chains. destruct ((q_isd q =? 0) || (q_as q =? 0)); try discriminate.
+  assert (E0 : ai && negb (is_nil (db_chains d q)) = false).
+  { destruct Hai as [ -> | -> ]; [reflexivity | apply andb_false_r]. }
+  rewrite E0.
+  destruct (active_trcs (d_trcs d) (q_isd q) now) as [trcs|] eqn:A; try discriminate.
   destruct (is_nil (filter_verifiable (db_chains d q) trcs now)) eqn:E; cbn [negb].
   - destruct rk; cbn [negb]; try discriminate. destruct f as [fs|]; try discriminate.
     intros H; inversion H; subst. intros ch Hin. split.
@@ -264,6 +269,13 @@ Proof.
     + apply filter_verifiable_In in Hin as [Hin _]. unfold db_chains in Hin.
       apply filter_In in Hin as [Hin _]. unfold known_chains. apply in_or_app. now left.
 Qed.
+
+Lemma get_chains_spec d q rk f now l d' :
+  get_chains d q false rk f now = (Some l, d') ->
+  forall ch, In ch l ->
+    spec_provided_ok (d_trcs d) (q_isd q) now ch = true
+    /\ In ch (known_chains d f).
+Proof. apply get_chains_spec_gen. now left. Qed.
 
 (** Nothing is handed out (the call fails) when the latest TRC is missing or not valid now. *)
 Lemma get_chains_inactive d q rk f now :
@@ -284,9 +296,80 @@ Lemma provider_oracle_model d q ai rk f now :
     (match fst (get_chains d q ai rk f now) with
      | None => None | Some l => Some (map chain_ids l) end) = true.
 Proof.
-  unfold provider_oracle. destruct ai; auto. cbn [orb].
-  destruct (get_chains d q false rk f now) as [[l|] d'] eqn:G; cbn [fst]; auto.
+  unfold provider_oracle.
+  destruct (ai && negb (is_nil (db_chains d q))) eqn:E0; auto. cbn [orb].
+  assert (Hai : ai = false \/ db_chains d q = []).
+  { destruct ai; [right | now left]. cbn in E0. destruct (db_chains d q); [reflexivity | discriminate]. }
+  destruct (get_chains d q ai rk f now) as [[l|] d'] eqn:G; cbn [fst]; auto.
   apply forallb_forall. intros ids Hin. apply in_map_iff in Hin as (ch & <- & Hin).
-  destruct (get_chains_spec _ _ _ _ _ _ _ G ch Hin) as [S K].
+  destruct (get_chains_spec_gen _ _ _ _ _ _ _ _ Hai G ch Hin) as [S K].
   apply existsb_exists. exists ch. split; auto. now rewrite ids_eqb_refl, S.
+Qed.
+
+(** ---------------------------------------------------------------- LoadChains *)
+
+Lemma active_trcs_res_active ts isd now l :
+  active_trcs_res ts isd now = AActive l -> active_trcs ts isd now = Some l.
+Proof.
+  unfold active_trcs_res, active_trcs. destruct (latest_trc ts isd) as [t|]; try discriminate.
+  destruct (negb (trc_contains t now)); try discriminate.
+  destruct (negb (in_grace t now)).
+  - intros H; now inversion H.
+  - destruct (find_trc ts isd (t_base t) (t_serial t - 1)); try discriminate. intros H; now inversion H.
+Qed.
+
+Lemma load_chains_spec now files : forall d loaded ignored e l i d',
+  load_chains now files d loaded ignored = (e, l, i, d') ->
+  d_trcs d' = d_trcs d
+  /\ (forall ch, In ch (d_chains d) -> In ch (d_chains d'))
+  /\ forall ch, In ch (d_chains d') ->
+       In ch (d_chains d) \/ (In ch (file_chains files) /\ spec_loaded_ok (d_trcs d) now ch = true).
+Proof.
+  induction files as [|[name f] r IH]; intros d loaded ignored e l i d' H; cbn [load_chains] in H.
+  - inversion H; subst. repeat split; auto.
+  - assert (Skip : forall lo ig, load_chains now r d lo ig = (e, l, i, d') ->
+       d_trcs d' = d_trcs d
+       /\ (forall ch, In ch (d_chains d) -> In ch (d_chains d'))
+       /\ forall ch, In ch (d_chains d') ->
+            In ch (d_chains d) \/ (In ch (file_chains ((name, f) :: r)) /\ spec_loaded_ok (d_trcs d) now ch = true)).
+    { intros lo ig K. destruct (IH _ _ _ _ _ _ _ K) as (T & Keep & Orig). repeat split; auto.
+      intros ch Hc. destruct (Orig ch Hc) as [|[F S]]; [now left|]. right. split; auto.
+      unfold file_chains. cbn [flat_map]. apply in_or_app. now right. }
+    destruct f as [|ch0]; [eauto|].
+    destruct (validate_chain ch0) eqn:V; cbn [negb] in H; [|eauto].
+    destruct ch0 as [|a rest]; [eauto|].
+    destruct (contains (c_nb a) (c_na a) now) eqn:C; cbn [negb] in H; [|eauto].
+    destruct (c_subject_ia a) as [isd asn| |] eqn:I; [|eauto|eauto].
+    destruct (active_trcs_res (d_trcs d) isd now) as [| |trcs] eqn:A; [eauto| |].
+    + inversion H; subst. repeat split; auto.
+    + destruct (existsb (fun t => verify_chain_trc (a :: rest) (Some t) now) trcs) eqn:X; cbn [negb] in H; [|eauto].
+      destruct (chain_in (a :: rest) (d_chains d)) eqn:Ci; [eauto|].
+      destruct (IH _ _ _ _ _ _ _ H) as (T & Keep & Orig). cbn [add_chain d_trcs d_chains] in *.
+      repeat split; auto.
+      * intros ch Hc. apply Keep. apply in_or_app. now left.
+      * intros ch Hc. destruct (Orig ch Hc) as [K|[F S]].
+        -- apply in_app_or in K as [K|[<-|[]]]; [now left|]. right. split.
+           ++ unfold file_chains. cbn [flat_map snd]. now left.
+           ++ unfold spec_loaded_ok. rewrite I. unfold valid_at. rewrite C. cbn [andb].
+              apply active_trcs_res_active in A.
+              apply (active_verifiable_spec _ _ _ _ [a :: rest] _ A).
+              apply filter_verifiable_In. split; [now left|].
+              apply existsb_exists in X as (t & Ht & Vt). eauto.
+        -- right. split; auto. unfold file_chains. cbn [flat_map]. apply in_or_app. now right.
+Qed.
+
+Lemma load_chains_oracle_model now files d :
+  let d' := snd (load_chains now files d [] []) in
+  load_chains_oracle now d files (map chain_ids (d_chains d')) = true.
+Proof.
+  destruct (load_chains now files d [] []) as [[[e l] i] d'] eqn:E. cbn [snd].
+  destruct (load_chains_spec _ _ _ _ _ _ _ _ _ E) as (T & Keep & Orig).
+  unfold load_chains_oracle. apply andb_true_iff. split.
+  - apply forallb_forall. intros ids Hin. apply in_map_iff in Hin as (ch & <- & Hc).
+    destruct (Orig ch Hc) as [K|[F S]].
+    + apply orb_true_iff. left. apply existsb_exists. exists ch. split; auto. apply ids_eqb_refl.
+    + apply orb_true_iff. right. apply existsb_exists. exists ch. split; auto. now rewrite ids_eqb_refl, S.
+  - apply forallb_forall. intros ch Hc. apply existsb_exists. exists (chain_ids ch). split.
+    + apply in_map. now apply Keep.
+    + apply ids_eqb_refl.
 Qed.
